@@ -2459,7 +2459,16 @@ public:
         // XXX: if we have a large array that is never smashed but we
         // do many reads with symbolic offsets then it might be better
         // to smash the array so that each read is cheaper.
-        if (crab_domain_params_man::get().array_adaptive_is_smashable()) {
+        if (offset_map.get_number_cells() >=
+            crab_domain_params_man::get().array_adaptive_max_array_size()) {
+          // Writes to new cells are dropped once the array has reached
+          // its maximum number of cells, so the cells found might not
+          // be all the cells that can be read.
+          CRAB_LOG("array-adaptive",
+                   CRAB_WARN("array adaptive: ignored array load from ", a,
+                             " because non-constant array index ", i, "=", ii,
+                             " and the array has too many cells"););
+        } else if (crab_domain_params_man::get().array_adaptive_is_smashable()) {
           if (array_state::can_be_smashed(cells, e_sz, true)) {
             // we smash all overlapping cells into a temporary array
             // (summarized) variable
@@ -2584,6 +2593,11 @@ public:
         if (crab_domain_params_man::get().array_adaptive_is_smashable()) {
           std::vector<cell_t> cells = offset_map.get_all_cells();
           if (next_as.can_be_smashed(e_sz) &&
+              // The summarized variable stands for all the array
+              // cells: it cannot be built if some cells might have
+              // been dropped because the array was too large.
+              (offset_map.get_number_cells() <
+               crab_domain_params_man::get().array_adaptive_max_array_size()) &&
               // Smashing is expensive because it will go over all cells
               // performing one join per weak update even if the smashed
               // array is already unconstrained. We don't smash if the
@@ -2741,6 +2755,25 @@ public:
     for (number_t i = *lb; i <= e;) {
       array_store(a, elem_size, i, val, false);
       i = i + e_sz;
+    }
+
+    if (e < *ub) {
+      // The rest of the segment is not written cell by cell but the
+      // old contents of its cells cannot be kept.
+      const array_state &as = lookup_array_state(a);
+      if (as.is_smashed()) {
+        array_store(a, elem_size, *ub, val, false);
+      } else {
+        array_state next_as(as);
+        offset_map_t &offset_map = next_as.get_offset_map();
+        linear_expression_t rest_lb(e + number_t(e_sz));
+        linear_expression_t rest_ub(*ub + number_t(e_sz - 1));
+        std::vector<cell_t> cells;
+        offset_map.get_overlap_cells_symbolic_offset(m_base_dom, rest_lb,
+                                                     rest_ub, cells);
+        kill_cells(a, cells, offset_map);
+        m_array_map.set(a, next_as);
+      }
     }
   }
 
